@@ -197,6 +197,7 @@ def drive(lines, timeout=1200, shards=1):
         with cf.ThreadPoolExecutor(max_workers=k) as ex:
             outs = list(ex.map(lambda p: drive(p, timeout=timeout), parts))
         return [x for o in outs for x in o]
+    _ensure_driver()
     data = "\n".join(lines) + "\n"
     p = subprocess.run(
         ["lake", "env", "lean", "--run", "Driver.lean"], cwd=LEAN, input=data, capture_output=True, text=True, timeout=timeout
@@ -211,6 +212,21 @@ def drive(lines, timeout=1200, shards=1):
 
 class DriverError(Exception):
     pass
+
+
+_DRIVER_READY = False
+
+
+def _ensure_driver():
+    """the driver imports model files of every property: build them (a no-op when they are up to date), once per run -
+    a check builds its own property's closure only, and an earlier run on another tree may have left the rest stale"""
+    global _DRIVER_READY
+    if _DRIVER_READY:
+        return
+    ok, out = lake_build(["AioftpModel.DriverAll"])
+    if not ok:
+        raise DriverError("the model driver does not build:\n" + out[-2000:])
+    _DRIVER_READY = True
 
 
 # ------------------------------------------------------------------------------------------------
